@@ -106,17 +106,18 @@ func drawRule(tp *simkit.Tape) *dataRule {
 		d.key, sh.Key, sh.Locations = "ct", "ct", nil
 		ranges := []string{"2014-2015", "2017-2018", "2020-2020"}[:nS]
 		sh.DateRange = ranges
-		d.keys = strs("2013-12-31", "2014-01-01", "2014-06-15", "2014-12-31", "2015-01-01", "2015-12-31", "2016-01-01", "2016-07-01", "2017-01-01", "2017-06-01", "2018-12-31", "2019-01-01", "2020-01-01", "2020-02-29", "2020-12-31", "2021-01-01")
+		d.keys = strs("2013-12-31", "2014-01-01", "2014-06-15", "2014-12-31", "2015-01-01", "2015-12-31", "2016-01-01", "2016-07-01", "2017-01-01", "2017-06-01", "2018-12-31", "2019-01-01", "2020-01-01", "2020-02-29", "2020-12-31", "2021-01-01",
+			"2015-01-15", "2017-01-02", "2018-01-31", "2014-01-03 10:00:00", "2017-12-31 23:59:59")
 	case "date_month":
 		d.key, sh.Key, sh.Locations = "ct", "ct", nil
 		ranges := []string{"201405-201406", "201408-201409", "201412-201501"}[:nS]
 		sh.DateRange = ranges
-		d.keys = strs("2014-04-30", "2014-05-01", "2014-05-31", "2014-06-01", "2014-06-30", "2014-07-01", "2014-07-15", "2014-08-01", "2014-09-30", "2014-10-01", "2014-12-01", "2014-12-31", "2015-01-01", "2015-01-31", "2015-02-01", "2014-05-15")
+		d.keys = strs("2014-04-30", "2014-05-01", "2014-05-31", "2014-06-01", "2014-06-30", "2014-07-01", "2014-07-15", "2014-08-01", "2014-09-30", "2014-10-01", "2014-12-01", "2014-12-31", "2015-01-01", "2015-01-31", "2015-02-01", "2014-05-15", "2014-06-02", "2014-08-15 12:30:00", "2014-05-31 23:59:59")
 	case "date_day":
 		d.key, sh.Key, sh.Locations = "ct", "ct", nil
 		ranges := []string{"20140901-20140903", "20140905-20140906", "20141231-20150101"}[:nS]
 		sh.DateRange = ranges
-		d.keys = strs("2014-08-31", "2014-09-01", "2014-09-02", "2014-09-03", "2014-09-04", "2014-09-05", "2014-09-06", "2014-09-07", "2014-12-30", "2014-12-31", "2015-01-01", "2015-01-02")
+		d.keys = strs("2014-08-31", "2014-09-01", "2014-09-02", "2014-09-03", "2014-09-04", "2014-09-05", "2014-09-06", "2014-09-07", "2014-12-30", "2014-12-31", "2015-01-01", "2015-01-02", "2014-09-02 08:00:00", "2014-09-03 23:59:59")
 	case "mycat_mod", "mycat_long", "mycat_murmur", "mycat_string", "mycat_padding_mod":
 		if typ == "mycat_padding_mod" && total < 2 {
 			// the rule takes the key modulo the number of tables and refuses fewer than two
@@ -227,6 +228,7 @@ type dataWorld struct {
 	breakInsertOn string
 	faulted       bool
 	child         string          // linked child table of the sharded table ("" = none)
+	childKey      string          // its sharding column
 	sessDB        string          // the session's current database
 	gcopies       []string        // database names of the global table's copies (mycat style), nil = one copy per slice
 	globalCopySet map[string]bool // "addr|db.table" of every copy of the global table
@@ -605,7 +607,12 @@ func runData(r *simkit.Run, prop string) {
 	}
 	if tp.Chance(2, 3) {
 		d.child = rule.table + "_child"
-		ns.ShardRules = append(ns.ShardRules, &models.Shard{DB: rule.db, Table: d.child, Type: "linked", ParentTable: rule.table, Key: rule.key})
+		d.childKey = rule.key
+		if rule.key == "id" && tp.Chance(1, 2) {
+			// the child's sharding column need not have the parent's name: here it is v, and the child's id is an ordinary column
+			d.childKey = "v"
+		}
+		ns.ShardRules = append(ns.ShardRules, &models.Shard{DB: rule.db, Table: d.child, Type: "linked", ParentTable: rule.table, Key: d.childKey})
 	}
 	w, err := NewWorld(r, map[string]*models.Namespace{"ns1": ns}, WorldOpts{})
 	if err != nil {
@@ -630,7 +637,7 @@ func runData(r *simkit.Run, prop string) {
 		return nil
 	}
 	r.SetSiteDensity(0, 0)
-	cfg := fmt.Sprintf("rule=%s slices=%d perSlice=%d global=%v child=%v", rule.typ, rule.nSlices, rule.perSlice, d.global != "", d.child != "")
+	cfg := fmt.Sprintf("rule=%s slices=%d perSlice=%d global=%v child=%v/%s", rule.typ, rule.nSlices, rule.perSlice, d.global != "", d.child != "", d.childKey)
 	r.Logf("config %s shard=%+v", cfg, *rule.shard)
 	if !rule.mycat {
 		d.logical[sqlmini.Key(d.physDB(rule.db), rule.table)] = true
